@@ -1539,6 +1539,9 @@ func (self *ReplicationServer) RecvProcess() error {
 			if err != nil {
 				return err
 			}
+			if !checkLockCommandDataFrame(buf) {
+				return errors.New("lock data frame error")
+			}
 			lockResult.Data = protocol.NewLockResultCommandDataFromOriginBytes(buf)
 		}
 		err = self.aof.loadLockAck(lockResult)
